@@ -286,6 +286,8 @@ Proof.
   - apply kv_get_push_other. exact N.
 Qed.
 
+Ltac shape := repeat split; try reflexivity; try (eexists; split; reflexivity); try (eexists; reflexivity).
+
 (* a function that rewrites the entries of a table-like node and nothing else *)
 Lemma keeps_items (f : item -> option item) (g : kvs -> kvs) k :
   (forall i i', f i = Some i' ->
@@ -308,7 +310,7 @@ Proof.
   apply (keeps_items _ (fun m => items_insert m k (IValue (build_value v)))).
   - intros i i' H.
     destruct i as [|[| |items pre im dt d sp]|[items d im dt p sp]|]; simpl in H; try discriminate;
-      injection H as <-; repeat split; eauto.
+      injection H as <-; shape.
   - intros. apply kv_get_items_insert_other. assumption.
 Qed.
 
@@ -316,7 +318,7 @@ Lemma op_insert_item_keeps k x : keeps (op_insert_item k x) (not_key k) ident.
 Proof.
   apply (keeps_items _ (fun m => items_insert m k x)).
   - intros i i' H. destruct i as [| |[items d im dt p sp]|]; simpl in H; try discriminate.
-    injection H as <-. repeat split; eauto.
+    injection H as <-. shape.
   - intros. apply kv_get_items_insert_other. assumption.
 Qed.
 
@@ -325,7 +327,7 @@ Proof.
   apply (keeps_items _ (fun m => kv_remove m k)).
   - intros i i' H.
     destruct i as [|[| |items pre im dt d sp]|[items d im dt p sp]|]; simpl in H; try discriminate;
-      injection H as <-; repeat split; eauto.
+      injection H as <-; shape.
   - intros. apply kv_get_remove_other. assumption.
 Qed.
 
@@ -345,7 +347,7 @@ Qed.
 Definition shift_up (n : nat) (q : path) : path :=
   match q with SIdx m :: q' => SIdx (if m <? n then m else S m) :: q' | _ => q end.
 Definition shift_down (n : nat) (q : path) : path :=
-  match q with SIdx m :: q' => SIdx (if m <? n then m else pred m) :: q' | _ => q end.
+  match q with SIdx m :: q' => SIdx (if m <? n then m else Nat.pred m) :: q' | _ => q end.
 
 Lemma vec_insert_nth {A} n (x : A) l l' m y :
   vec_insert n x l = Some l' -> nth_error l m = Some y ->
@@ -362,7 +364,7 @@ Qed.
 
 Lemma vec_remove_nth {A} n (l : list A) y l' m :
   vec_remove n l = Some (y, l') -> m <> n ->
-  nth_error l' (if m <? n then m else pred m) = nth_error l m.
+  nth_error l' (if m <? n then m else Nat.pred m) = nth_error l m.
 Proof.
   revert n y l' m. induction l as [|z l IH]; intros [|n] y l' m H N; simpl in H; try discriminate.
   - injection H as <- <-. destruct m; [congruence|reflexivity].
@@ -406,7 +408,7 @@ Proof.
     injection H as <-. simpl in L. injection L as <-. eexists. split; [reflexivity|].
     intros y G. rewrite nth_error_app1; [exact G|]. apply nth_error_Some. congruence.
   - intros i i' H. destruct i as [|[|vals tr c d sp|]| |]; simpl in H; try discriminate.
-    injection H as <-. repeat split; eauto.
+    injection H as <-. shape.
 Qed.
 
 Lemma op_arr_insert_keeps n v : keeps (op_arr_insert n v) (fun _ => true) (shift_up n).
@@ -420,14 +422,14 @@ Proof.
     intros y G. eapply vec_insert_nth; eauto.
   - intros i i' H. destruct i as [|[|vals tr c d sp|]| |]; simpl in H; try discriminate.
     destruct (vec_insert n _ vals) as [vals'|]; simpl in H; [|discriminate]. injection H as <-.
-    repeat split; eauto.
+    shape.
 Qed.
 
 Lemma op_arr_remove_keeps n : keeps (op_arr_remove n) (not_idx n) (shift_down n).
 Proof.
   apply keeps_elems.
   - intros [|[|] ?]; simpl; auto.
-  - intros m q'. exists (if m <? n then m else pred m). split; [reflexivity|].
+  - intros m q'. exists (if m <? n then m else Nat.pred m). split; [reflexivity|].
     intros i i' H Hu l L. destruct i as [|[|vals tr c d sp|]| |]; simpl in H; try discriminate.
     destruct (vec_remove n vals) as [[y0 vals']|] eqn:E; [|discriminate].
     destruct y0; try discriminate. injection H as <-.
@@ -436,7 +438,7 @@ Proof.
     simpl in Hu. intro; subst. rewrite Nat.eqb_refl in Hu. discriminate.
   - intros i i' H. destruct i as [|[|vals tr c d sp|]| |]; simpl in H; try discriminate.
     destruct (vec_remove n vals) as [[y0 vals']|]; [|discriminate].
-    destruct y0; try discriminate. injection H as <-. repeat split; eauto.
+    destruct y0; try discriminate. injection H as <-. shape.
 Qed.
 
 Lemma op_arr_replace_keeps n v : keeps (op_arr_replace n v) (not_idx n) ident.
@@ -451,7 +453,7 @@ Proof.
     simpl in Hu. intro; subst. rewrite Nat.eqb_refl in Hu. discriminate.
   - intros i i' H. destruct i as [|[|vals tr c d sp|]| |]; simpl in H; try discriminate.
     destruct (nth_upd n _ vals) as [vals'|]; simpl in H; [|discriminate]. injection H as <-.
-    repeat split; eauto.
+    shape.
 Qed.
 
 Lemma op_aot_push_keeps : keeps op_aot_push (fun _ => true) ident.
@@ -463,14 +465,14 @@ Proof.
     injection H as <-. simpl in L. injection L as <-. eexists. split; [reflexivity|].
     intros y G. rewrite map_app, nth_error_app1; [exact G|]. apply nth_error_Some. congruence.
   - intros i i' H. destruct i as [| | |ts sp]; simpl in H; try discriminate.
-    injection H as <-. repeat split; eauto.
+    injection H as <-. shape.
 Qed.
 
 Lemma op_aot_remove_keeps n : keeps (op_aot_remove n) (not_idx n) (shift_down n).
 Proof.
   apply keeps_elems.
   - intros [|[|] ?]; simpl; auto.
-  - intros m q'. exists (if m <? n then m else pred m). split; [reflexivity|].
+  - intros m q'. exists (if m <? n then m else Nat.pred m). split; [reflexivity|].
     intros i i' H Hu l L. destruct i as [| | |ts sp]; simpl in H; try discriminate.
     destruct (vec_remove n ts) as [[y0 ts']|] eqn:E; simpl in H; [|discriminate]. injection H as <-.
     simpl in L. injection L as <-. eexists. split; [reflexivity|].
@@ -478,5 +480,306 @@ Proof.
     simpl in Hu. intro; subst. rewrite Nat.eqb_refl in Hu. discriminate.
   - intros i i' H. destruct i as [| | |ts sp]; simpl in H; try discriminate.
     destruct (vec_remove n ts) as [[y0 ts']|]; simpl in H; [|discriminate]. injection H as <-.
-    repeat split; eauto.
+    shape.
+Qed.
+
+(* ==================================================================================== *)
+(** * fmt: the node and its direct children are reformatted, nothing deeper *)
+
+Definition deeper (q : path) : bool := match q with _ :: _ :: _ => true | _ => false end.
+
+Lemma lookup_cons_indep s q k0 k1 i i' :
+  item_kvs i = item_kvs i' -> item_elems i = item_elems i' ->
+  lookup (s :: q) k0 i = lookup (s :: q) k1 i'.
+Proof. intros E1 E2. destruct s; simpl; [rewrite E1|rewrite E2]; reflexivity. Qed.
+
+Definition same_children (a b : item) : Prop := item_kvs a = item_kvs b /\ item_elems a = item_elems b.
+
+Lemma value_clear_decor_children v : same_children (IValue (value_clear_decor v)) (IValue v).
+Proof. destruct v; split; reflexivity. Qed.
+Lemma value_decorate_children v p s : same_children (IValue (value_decorate v p s)) (IValue v).
+Proof. destruct v; split; reflexivity. Qed.
+
+Lemma kv_get_decorate m k :
+  match kv_get m k, kv_get (decorate_items m) k with
+  | Some (_, a), Some (_, b) => same_children b a
+  | None, None => True
+  | _, _ => False
+  end.
+Proof.
+  induction m as [|[k1 i] m IH]; simpl; [exact I|].
+  destruct i as [|v| |]; simpl; destruct (bytes_eqb (k_key k1) k); try exact IH; try (split; reflexivity).
+  apply value_clear_decor_children.
+Qed.
+
+Lemma nth_decorate_elems first l n :
+  match nth_error l n, nth_error (decorate_elems first l) n with
+  | Some a, Some b => same_children b a
+  | None, None => True
+  | _, _ => False
+  end.
+Proof.
+  revert first n. induction l as [|x l IH]; intros first n.
+  - destruct n; exact I.
+  - destruct x as [|v| |]; destruct n as [|n]; simpl; try (split; reflexivity); try apply IH.
+    apply value_decorate_children.
+Qed.
+
+Lemma op_fmt_keeps : keeps op_fmt deeper ident.
+Proof.
+  intros i i' H q k0 e Hu He. unfold ident.
+  destruct q as [|s1 [|s2 q]]; try discriminate.
+  unfold entry_of in *.
+  destruct i as [|[|vals tr c d sp|items pre im dt d sp]|[items d im dt p sp]|]; simpl in H; try discriminate;
+    injection H as <-.
+  - (* array *)
+    destruct s1 as [k|n]; [discriminate|].
+    cbn [lookup item_elems] in He. cbn [lookup item_elems array_fmt].
+    pose proof (nth_decorate_elems true vals n) as Hn.
+    destruct (nth_error vals n) as [a|]; [|discriminate].
+    destruct (nth_error (decorate_elems true vals) n) as [b|]; [|contradiction].
+    destruct Hn as [E1 E2]. rewrite E1, E2. exact He.
+  - (* inline table *)
+    destruct s1 as [k|n]; [|discriminate].
+    cbn [lookup item_kvs] in He. cbn [lookup item_kvs].
+    pose proof (kv_get_decorate items k) as Hn.
+    destruct (kv_get items k) as [[ka a]|]; [|discriminate].
+    destruct (kv_get (decorate_items items) k) as [[kb b]|]; [|contradiction].
+    destruct Hn as [E1 E2]. rewrite E1, E2. exact He.
+  - (* table *)
+    destruct s1 as [k|n]; [|discriminate].
+    cbn [lookup item_kvs tbl_with_items] in He. cbn [lookup item_kvs tbl_with_items].
+    pose proof (kv_get_decorate items k) as Hn.
+    destruct (kv_get items k) as [[ka a]|]; [|discriminate].
+    destruct (kv_get (decorate_items items) k) as [[kb b]|]; [|contradiction].
+    destruct Hn as [E1 E2]. rewrite E1, E2. exact He.
+Qed.
+
+(* ==================================================================================== *)
+(** * sort: every entry keeps its own formatting (only the order changes) *)
+
+Lemma key_leb_refl a : key_leb a a = true.
+Proof. unfold key_leb. rewrite key_compare_refl. reflexivity. Qed.
+
+Lemma kv_get_ins_sorted x m k : kv_get (kv_ins_sorted x m) k = kv_get (x :: m) k.
+Proof.
+  induction m as [|y m IH]; [reflexivity|].
+  simpl kv_ins_sorted. destruct (key_leb (k_key (fst x)) (k_key (fst y))) eqn:L; [reflexivity|].
+  destruct x as [kx ix], y as [ky iy]. simpl in *.
+  destruct (bytes_eqb (k_key ky) k) eqn:Ey.
+  - destruct (bytes_eqb (k_key kx) k) eqn:Ex; [|reflexivity].
+    apply bytes_eqb_eq in Ex, Ey. rewrite Ex, Ey, key_leb_refl in L. discriminate.
+  - rewrite IH. reflexivity.
+Qed.
+
+Lemma kv_get_sort_keys m k : kv_get (kv_sort_keys m) k = kv_get m k.
+Proof.
+  induction m as [|[k1 i1] m IH]; [reflexivity|].
+  simpl kv_sort_keys. rewrite kv_get_ins_sorted. simpl. rewrite IH. reflexivity.
+Qed.
+
+Lemma kv_get_map (g : item -> item) m k :
+  kv_get (map (fun kv : key * item => match kv with (k0, i) => (k0, g i) end) m) k
+  = match kv_get m k with Some (k', i) => Some (k', g i) | None => None end.
+Proof.
+  induction m as [|[k1 i1] m IH]; simpl; [reflexivity|].
+  destruct (bytes_eqb (k_key k1) k); [reflexivity|exact IH].
+Qed.
+
+Lemma kv_get_In m k k' i : kv_get m k = Some (k', i) -> In (k', i) m.
+Proof.
+  induction m as [|[k1 i1] m IH]; simpl; [discriminate|].
+  destruct (bytes_eqb (k_key k1) k); intro H; [injection H as <- <-; left; reflexivity|right; apply IH; exact H].
+Qed.
+
+Definition same_entries (a b : item) : Prop := forall q k0, entry_of q k0 b = entry_of q k0 a.
+
+Lemma sort_same_entries :
+  (forall v, same_entries (IValue v) (IValue (inline_sort_values v))) /\
+  (forall t, same_entries (ITable t) (ITable (tbl_sort_values t))).
+Proof.
+  pose (Pv := fun v => same_entries (IValue v) (IValue (inline_sort_values v))).
+  pose (Pt := fun t => same_entries (ITable t) (ITable (tbl_sort_values t))).
+  pose (Pi := fun i => match i with IValue v => Pv v | ITable t => Pt t | _ => True end).
+  assert (Hin : forall items pre im dt d sp,
+             Forall (fun kv => Pi (snd kv)) items -> Pv (VInline items pre im dt d sp)).
+  { intros items pre im dt d sp IH q k0. unfold entry_of.
+    destruct q as [|[k|n] q]; [reflexivity| |reflexivity].
+    simpl inline_sort_values. simpl lookup.
+    rewrite kv_get_sort_keys, kv_get_map.
+    destruct (kv_get items k) as [[k' i]|] eqn:G; [|reflexivity].
+    rewrite Forall_forall in IH. specialize (IH _ (kv_get_In _ _ _ _ G)). simpl in IH.
+    destruct i as [|[s r d0|vals tr c d0 sp0|items0 pre0 im0 dt0 d0 sp0]|[items0 d0 im0 dt0 p0 sp0]|]; try reflexivity.
+    destruct dt0; [|reflexivity]. apply (IH q (Some k')). }
+  assert (Htb : forall items d im dt p sp,
+             Forall (fun kv => Pi (snd kv)) items -> Pt (Tbl items d im dt p sp)).
+  { intros items d im dt p sp IH q k0. unfold entry_of.
+    destruct q as [|[k|n] q]; [reflexivity| |reflexivity].
+    simpl tbl_sort_values. simpl lookup.
+    rewrite kv_get_sort_keys, kv_get_map.
+    destruct (kv_get items k) as [[k' i]|] eqn:G; [|reflexivity].
+    rewrite Forall_forall in IH. specialize (IH _ (kv_get_In _ _ _ _ G)). simpl in IH.
+    destruct i as [|[s r d0|vals tr c d0 sp0|items0 pre0 im0 dt0 d0 sp0]|[items0 d0 im0 dt0 p0 sp0]|]; try reflexivity.
+    destruct dt0; [|reflexivity]. apply (IH q (Some k')). }
+  split.
+  - apply (value_ind4 Pv Pi Pt); unfold Pi; try (intros; exact I); try (intros; assumption); try exact Hin; try exact Htb.
+    + intros s r d q k0. reflexivity.
+    + intros vals tr c d sp _ q k0. reflexivity.
+  - apply (tbl_ind4 Pv Pi Pt); unfold Pi; try (intros; exact I); try (intros; assumption); try exact Hin; try exact Htb.
+    + intros s r d q k0. reflexivity.
+    + intros vals tr c d sp _ q k0. reflexivity.
+Qed.
+
+Lemma op_sort_keeps : keeps op_sort (fun _ => true) ident.
+Proof.
+  intros i i' H q k0 e _ He. unfold ident.
+  destruct i as [|[| |items pre im dt d sp]|t|]; unfold op_sort in H; try discriminate; injection H as <-.
+  - change (entry_of q k0 (IValue (inline_sort_values (VInline items pre im dt d sp))) = Some e).
+    rewrite (proj1 sort_same_entries (VInline items pre im dt d sp) q k0). exact He.
+  - rewrite (proj2 sort_same_entries t q k0). exact He.
+Qed.
+
+(* ==================================================================================== *)
+(** * IndexMut: everything off the assigned path, and the existing tables along it *)
+
+Lemma kv_get_push_none_other m k k2 v : bytes_eqb k k2 = false -> kv_get (kv_push m (key_new k) v) k2 = kv_get m k2.
+Proof. apply kv_get_push_other. Qed.
+
+Lemma entry_or_none_fst_other items k k2 :
+  bytes_eqb k k2 = false -> kv_get (fst (entry_or_none items k)) k2 = kv_get items k2.
+Proof.
+  intro N. unfold entry_or_none. destruct (kv_get items k) as [[k' i]|]; simpl; [reflexivity|].
+  apply kv_get_push_other. exact N.
+Qed.
+
+Lemma kv_get_set_same m k k' i v : kv_get m k = Some (k', i) -> kv_get (kv_set m k v) k = Some (k', v).
+Proof.
+  induction m as [|[k1 i1] m IH]; simpl; [discriminate|].
+  destruct (bytes_eqb (k_key k1) k) eqn:E; simpl; rewrite E; intro H.
+  - injection H as <- <-. reflexivity.
+  - apply IH. exact H.
+Qed.
+
+Lemma iset_keeps ks x : forall it it',
+  iset ks x it = Some it' ->
+  forall q k0 e, is_prefix (map SKey ks) q = false -> entry_of q k0 it = Some e -> snd e <> INone ->
+  entry_of q k0 it' = Some e.
+Proof.
+  induction ks as [|k ks IH]; intros it it' H q k0 e Hp He Hn.
+  - discriminate.
+  - simpl in H.
+    destruct it as [|[s r d|vals tr c d sp|items pre im dt d sp]|[items d im dt p sp]|ts sp]; try discriminate.
+    + (* a placeholder: not an entry *)
+      destruct q as [|[k2|n] q]; [|unfold entry_of in He; simpl in He; discriminate..].
+      rewrite entry_of_nil in He. injection He as <-. exfalso. apply Hn. reflexivity.
+    + destruct (entry_or_none items k) as [m slot] eqn:EO.
+      destruct (iset ks x slot) as [slot'|] eqn:E; simpl in H; [|discriminate]. injection H as <-.
+      destruct q as [|[k2|n] q]; [exact He| |exact He].
+      unfold entry_of in *. simpl in *. unfold is_prefix in Hp. simpl in Hp.
+      destruct (bytes_eqb k k2) eqn:Ek.
+      * apply bytes_eqb_eq in Ek. subst k2.
+        unfold entry_or_none in EO. destruct (kv_get items k) as [[k' i]|] eqn:G; [|discriminate].
+        injection EO as <- <-. rewrite (kv_get_set_same _ _ _ _ _ G).
+        apply (IH _ _ E q (Some k') e); auto.
+      * rewrite kv_get_set_other by exact Ek.
+        replace m with (fst (entry_or_none items k)) by (rewrite EO; reflexivity).
+        rewrite entry_or_none_fst_other by exact Ek. exact He.
+    + destruct (entry_or_none items k) as [m slot] eqn:EO.
+      destruct (iset ks x slot) as [slot'|] eqn:E; simpl in H; [|discriminate]. injection H as <-.
+      destruct q as [|[k2|n] q]; [exact He| |exact He].
+      unfold entry_of in *. simpl in *. unfold is_prefix in Hp. simpl in Hp.
+      destruct (bytes_eqb k k2) eqn:Ek.
+      * apply bytes_eqb_eq in Ek. subst k2.
+        unfold entry_or_none in EO. destruct (kv_get items k) as [[k' i]|] eqn:G; [|discriminate].
+        injection EO as <- <-. rewrite (kv_get_set_same _ _ _ _ _ G).
+        apply (IH _ _ E q (Some k') e); auto.
+      * rewrite kv_get_set_other by exact Ek.
+        replace m with (fst (entry_or_none items k)) by (rewrite EO; reflexivity).
+        rewrite entry_or_none_fst_other by exact Ek. exact He.
+Qed.
+
+(* ==================================================================================== *)
+(** * The step *)
+
+(* where an operation works (P), which paths relative to P it leaves alone (U), where they go (R) *)
+Definition op_region (o : op) : path * (path -> bool) * (path -> path) :=
+  match o with
+  | OInsert p k _ | OInsertTable p k | OInsertAot p k | ORemove p k
+  | OMakeValue p k | OIntoTable p k | OIntoAot p k => (p, not_key k, ident)
+  | OArrPush p _ | OAotPush p | OSort p => (p, fun _ => true, ident)
+  | OArrInsert p i _ => (p, fun _ => true, shift_up i)
+  | OArrReplace p i _ => (p, not_idx i, ident)
+  | OArrRemove p i | OAotRemove p i => (p, not_idx i, shift_down i)
+  | OFmt p => (p, deeper, ident)
+  | OISet ks _ => ([], fun q => negb (is_prefix (map SKey ks) q), ident)
+  end.
+
+(* the entry at path p is not touched by o: p is not the edited entry nor inside it
+   (insert / replace / remove / conversions: the entry of that key and what is below it;
+    array replace / remove: that element; fmt: the container and its direct children;
+    IndexMut: the assigned entry and what is below it; push / insert / sort: nothing existing) *)
+Definition untouched (o : op) (p : path) : bool :=
+  match op_region o with (P, U, _) => U_at P U p end.
+(* where the entry is afterwards (array insert / remove shift the later elements) *)
+Definition reloc (o : op) (p : path) : path :=
+  match op_region o with (P, _, R) => R_at P R p end.
+
+Theorem step_verbatim : forall t o t' p e,
+  apply o t = Some t' -> untouched o p = true ->
+  entry_repr t p = Some e -> snd e <> INone ->
+  entry_repr t' (reloc o p) = Some e.
+Proof.
+  intros t o t' p e H Hu He Hn. unfold apply in H.
+  destruct (op_fun o) as [P f] eqn:EO. apply as_tbl_abs in H.
+  unfold entry_repr, untouched, reloc in *.
+  assert (K : forall U R, keeps f U R -> op_region o = (P, U, R) ->
+                          entry_of (match op_region o with (P, _, R) => R_at P R p end) None (ITable t') = Some e).
+  { intros U R Hk Er. rewrite Er in *. exact (at_path_keeps P f U R Hk _ _ H p None e Hu He). }
+  destruct o as [q k v|q k|q k|q k|q v|q i v|q i v|q i|q|q i|q|q|q k|q k|q k|ks x];
+    simpl in EO; injection EO as <- <-.
+  - exact (K _ _ (op_insert_keeps k v) eq_refl).
+  - exact (K _ _ (op_insert_item_keeps k _) eq_refl).
+  - exact (K _ _ (op_insert_item_keeps k _) eq_refl).
+  - exact (K _ _ (op_remove_keeps k) eq_refl).
+  - exact (K _ _ (op_arr_push_keeps v) eq_refl).
+  - exact (K _ _ (op_arr_insert_keeps i v) eq_refl).
+  - exact (K _ _ (op_arr_replace_keeps i v) eq_refl).
+  - exact (K _ _ (op_arr_remove_keeps i) eq_refl).
+  - exact (K _ _ op_aot_push_keeps eq_refl).
+  - exact (K _ _ (op_aot_remove_keeps i) eq_refl).
+  - exact (K _ _ op_sort_keeps eq_refl).
+  - exact (K _ _ op_fmt_keeps eq_refl).
+  - exact (K _ _ (op_slot_keeps k _) eq_refl).
+  - exact (K _ _ (op_slot_keeps k _) eq_refl).
+  - exact (K _ _ (op_slot_keeps k _) eq_refl).
+  - clear K. simpl in *. unfold U_at, R_at, ident in *. simpl in *.
+    destruct ks as [|k ks]; [discriminate|].
+    rewrite app_nil_l || idtac.
+    apply (iset_keeps _ _ _ _ H p None e); auto.
+    destruct (is_prefix (map SKey (k :: ks)) p); [discriminate|reflexivity].
+Qed.
+
+(* histories: an entry no operation of the history touches (followed through the relocations) *)
+Fixpoint untouched_all (ops : list op) (p : path) : bool :=
+  match ops with
+  | [] => true
+  | o :: tl => untouched o p && untouched_all tl (reloc o p)
+  end.
+Fixpoint reloc_all (ops : list op) (p : path) : path :=
+  match ops with
+  | [] => p
+  | o :: tl => reloc_all tl (reloc o p)
+  end.
+
+Theorem history_verbatim : forall ops t t' p e,
+  apply_seq ops t = Some t' -> untouched_all ops p = true ->
+  entry_repr t p = Some e -> snd e <> INone ->
+  entry_repr t' (reloc_all ops p) = Some e.
+Proof.
+  induction ops as [|o ops IH]; intros t t' p e H Hu He Hn; simpl in *.
+  - injection H as <-. exact He.
+  - destruct (apply o t) as [t1|] eqn:E; [|discriminate].
+    apply andb_true_iff in Hu as [Hu1 Hu2].
+    apply (IH t1 t' (reloc o p) e H Hu2); [|exact Hn].
+    exact (step_verbatim _ _ _ _ _ E Hu1 He Hn).
 Qed.
